@@ -67,7 +67,8 @@ class TimeModel(object):
         self.scan_wire(world)
         if self.t0 is None:
             self.trace.append('handshake')
-            return W.Data(W.HANDSHAKE())
+            # the reply may take a while: every obligation is measured from Ready, not from the TCP connect
+            return W.Data(W.HANDSHAKE(), delay=self.cfg.get('hs_delay', 0))
         tau = self.now(world)
         self.check_deadlines(tau, final=False)
         menu = ['eof']
@@ -290,6 +291,10 @@ class C15(F.Check):
             h = min(2 * p + max(r, p) + (t or 0) + (c or 0), 14 if tier == 'thorough' else 12)
             for app_close in (False, True):
                 jobs.append({'p': p, 'r': r, 't': t, 'c': c, 'horizon': h, 'arrivals': 3 if tier == 'thorough' else 2, 'app_close': app_close})
+            if (r or t) and (tier == 'quick' or p == 2):
+                # the same with a slow opening handshake (not a multiple of poll or ping_rate), fewer arrivals
+                jobs.append({'p': p, 'r': r, 't': t, 'c': c, 'horizon': h, 'arrivals': 1 if tier == 'quick' else 2, 'app_close': False,
+                             'hs_delay': 2 * max(r, t or 0) + 1.5})
         return jobs
 
     def one_run(self, cfg, ch, ex):
